@@ -227,6 +227,11 @@ where
             "identity",
         );
 
+        // Decode the events before touching the event log so that
+        // a patch carrying malformed event data is refused without
+        // having been appended
+        diff.patch.into_events::<WriteEvent>().await?;
+
         let identity_log = self.identity_log().await?;
         let mut writer = identity_log.write().await;
         let checked_patch =
